@@ -445,6 +445,7 @@ RULES = [
     ("X-REEVAL", "an expression evaluated twice for one entry has the same typed value both times (no text-valued memo beside the map handed in) [shared]", lambda ctx: __import__("gcev").reevaluation_is_stable(ctx)),
     ("X-EXPRWALK", "recursive walks of an expression's value layer visit left, right and the further arguments [shared]", lambda ctx: __import__("extra2").value_walks_reach_arguments(ctx)),
     ("C02-R8", "comparisons of arithmetic results (Float values) against literals are numeric, signed zeroes included [shared with C02]", lambda ctx: __import__("c02").r8(ctx)),
+    ("X-NUMMINUS", "a minus glued to a number is the arithmetic operator; only a year 1970..2999 starts a date literal (lexer evaluated) [shared]", lambda ctx: __import__("extra2").number_minus_is_arithmetic(ctx)),
 ]
 
 EXPLANATION = (
